@@ -431,6 +431,10 @@ impl<'a> Gen<'a> {
         if qos > 0 && self.rng.chance(1, 8) {
             dup = true;
         }
+        if qos > 0 && self.cfg.redeliver && self.rng.chance(1, 2) {
+            // identifier reuse as soon as the previous exchange is complete
+            id = IdSpec::LowestFree;
+        }
         if qos > 0 && self.rng.chance(1, 10) {
             id = IdSpec::Raw(self.rng.range(1, 65535) as u16);
             if qos == 2 {
